@@ -152,7 +152,9 @@ def find_component_connection_edge(
     best_dist = np.inf
     best_edge = (indices[0][0], indices[1][0])
 
-    while changed[0] or changed[1]:
+    stalled = 0
+    while (changed[0] or changed[1]) and stalled < 2:
+        previous_best = best_dist
         inds, dists, _ = search_closure(
             query_points, candidate_indices, search_size, epsilon, visited
         )
@@ -162,6 +164,14 @@ def find_component_connection_edge(
                 if dists[i, j] < best_dist:
                     best_dist = dists[i, j]
                     best_edge = (indices[query_side][i], inds[i, j])
+        # The best distance can only decrease. Once two consecutive searches (one
+        # from each side) bring no improvement the candidate sets are merely
+        # swapping between equally distant points: stop instead of alternating
+        # for ever on data with many tied distances.
+        if best_dist < previous_best:
+            stalled = 0
+        else:
+            stalled += 1
         candidate_indices = indices[query_side]
         new_indices = np.unique(inds[:, 0])
         if indices[1 - query_side].shape[0] == new_indices.shape[0]:
